@@ -247,7 +247,7 @@ class _StatePointDict(JSONAttrDict):
         """
         try:
             data = self._load_from_resource()
-        except json.JSONDecodeError:
+        except (json.JSONDecodeError, RecursionError):
             raise JobsCorruptedError([job_id])
 
         if data is None or calc_id(data) != job_id:
